@@ -195,6 +195,33 @@ def run(ctx):
                lay['first_field'], term_str(hdr_len) if hdr_len else None))
     binary_mode(ctx, fi, data, lay)
     line_mode(ctx, fi, data)
+    # "with identical content, whatever mix of byte orders the senders
+    # used": a framed message is handed to parseMessage, which must take
+    # the byte order of header AND body from that message's own first byte
+    # (the reader clauses of C03-D4, re-reported)
+    from . import c03 as _c03
+
+    class _Reader:
+        prog = ctx.prog
+        tier = ctx.tier
+        extra = {}
+
+        def ob(self, rule, where, slot, ok, msg, detail=None,
+               nontrivial=True, loc=None):
+            if slot in ('byte-order-from-first-byte',
+                        'body-decoded-under-signature',
+                        'header-from-offset-0'):
+                ctx.ob('C04.D1', where, 'content:' + slot, ok,
+                       '[each delivered message is decoded in its own byte '
+                       'order] ' + msg, detail, nontrivial, loc)
+            return ok
+
+        def floor(self, *a):
+            pass
+
+        def advisory(self, *a):
+            pass
+    _c03.reader_rules(_Reader(), _c03.message_classes(ctx.prog))
     ctx.floor('C04.D1', 5)
     ctx.floor('C04.D2', 8)
     ctx.floor('C04.D3', 1)
@@ -223,7 +250,11 @@ def binary_mode(ctx, fi, data, lay):
         # (c) state written
         for ev in trace:
             if ev[0] == 'setattr' and ev[1] == SELF:
-                ok = ev[2] in ('_buffer', '_nextMsgLen', '_endian')
+                from ..loader import attr_read_elsewhere
+                # (a counter that is only ever incremented cannot carry
+                # framing state from one call to the next)
+                ok = ev[2] in ('_buffer', '_nextMsgLen', '_endian') or \
+                    not attr_read_elsewhere(fi.node, ev[2])
                 ctx.ob('C04.D2', q, 'state:%s' % ev[2], ok,
                        'binary-mode framing may keep only _buffer, '
                        '_nextMsgLen and _endian across calls; it writes '
